@@ -7,6 +7,10 @@ ASSUMPTIONS = ["slist_ref.c / szvp_ref.c are reference implementations of the sk
 LIB = ["src/lib/ares_library_init.c"]
 PROTO_SUP = ["vp_rt.c", "valloc.c", "memloops.c", "slist_ref.c", "szvp_ref.c", "lock_ghost.c", "dnsrec_abs.c"]
 
+import os, sys
+sys.path.insert(0, os.path.join(os.path.dirname(os.path.abspath(__file__)), "..", "machine"))
+import mjobs
+
 def jobs(tier, seed):
     J = []
     for nq in ((1, 2) if tier == "quick" else (1, 2, 3)):
@@ -37,4 +41,7 @@ def jobs(tier, seed):
                         "record duplicate / name rewrite may fail" %
                         ("ares_search_dnsrec from scratch" if entry == 0 else
                          "search_callback for ANY outstanding candidate index", nm, nd, nos)))
+    J += mjobs.send_early_jobs(tier)
+    J += [j for j in mjobs.sendquery_jobs(tier) if "srv1" in j["name"] and ("_sib1" in j["name"] or "ex0" in j["name"])]
+    J += mjobs.requeue_jobs(tier)
     return J
